@@ -95,10 +95,12 @@ Definition sort_z (l : list Z) : list Z := fold_right insert_z [] l.
 
 (** S(l): the instants whose wall clock reads l, ascending.  t = l - o for an offset o the zone
     uses, and the zone is at offset o at that instant. *)
-Definition instants_of_wall (z : szone) (l : Z) : list Z :=
+Definition instants_of_wall_among (offs : list Z) (z : szone) (l : Z) : list Z :=
   sort_z (dedup (flat_map (fun o => match zone_off z (l - o) with
                                     | Some o' => if o' =? o then [l - o] else []
-                                    | None => [] end) (zone_offsets z))).
+                                    | None => [] end) offs)).
+Definition instants_of_wall (z : szone) (l : Z) : list Z :=
+  instants_of_wall_among (zone_offsets z) z l.
 
 (** the wall-clock seconds about which the property makes no claim: the second that ends a skipped
     or repeated interval (T + max(before, after)) and the first second of a skipped interval
@@ -128,3 +130,26 @@ Definition excepted_rule (r : Z + srule) (l : Z) : bool :=
 Definition excepted_wall (z : szone) (l : Z) : bool :=
   excepted_table (z_trans z) (z_first z) l ||
   match z_rule z with Some r => excepted_rule r l | None => false end.
+
+(** ** Well-formedness and spacing of a transition table (decidable; used by the judges to
+    delimit domains and by the theorems as hypotheses) *)
+Fixpoint increasing (l : list (Z * Z)) : bool :=
+  match l with
+  | (a, _) :: (((b, _) :: _) as r) => (a <? b) && increasing r
+  | _ => true
+  end.
+
+(** the spacing condition: the wall-clock windows of the transitions,
+    [T + min(before, after), T + max(before, after)], are pairwise disjoint and in the order of
+    the transitions (transitions are further apart than the offsets change) *)
+Fixpoint windows (tr : list (Z * Z)) (cur : Z) : list (Z * Z) :=
+  match tr with
+  | [] => []
+  | (t, o) :: rest => (t + Z.min cur o, t + Z.max cur o) :: windows rest o
+  end.
+Fixpoint ordered (ws : list (Z * Z)) : bool :=
+  match ws with
+  | (_, hi) :: (((lo, _) :: _) as rest) => (hi <? lo) && ordered rest
+  | _ => true
+  end.
+Definition spacing_table (tr : list (Z * Z)) (cur : Z) : bool := ordered (windows tr cur).
